@@ -268,6 +268,12 @@ fn conj_paired(d: &[f64], e: &[f64]) -> bool {
 /// within tol2*max|A|^2, and for every real eigenvalue d_j: column j non-zero and
 /// |A v - d_j v|_i <= tolv * max|A| * max|v|
 fn check_evd_gen(tol1: f64, tol2: f64, tolv: f64, a: &Mat, v: &Mat, d: &[f64], e: &[f64]) -> Verdict {
+    check_evd_gen_skip(tol1, tol2, tolv, a, v, d, e, &[])
+}
+/// the same, not examining the eigenvector columns flagged in `skip` (used only to decide whether a
+/// failure is confined to the columns of a known finding; `skip` empty = the validator twin)
+#[allow(clippy::too_many_arguments)]
+fn check_evd_gen_skip(tol1: f64, tol2: f64, tolv: f64, a: &Mat, v: &Mat, d: &[f64], e: &[f64], skip: &[bool]) -> Verdict {
     let n = a.len();
     let mut r = Verdict::new();
     r.hard(square(n, a) && square(n, v) && d.len() == n && e.len() == n, "shapes");
@@ -289,7 +295,7 @@ fn check_evd_gen(tol1: f64, tol2: f64, tolv: f64, a: &Mat, v: &Mat, d: &[f64], e
     r.tol(tr2.abs(), tol2 * (nrm * nrm), "sum of squared eigenvalues = trace(A^2)");
     let vc = cols_of(v);
     for j in 0..n {
-        if e[j] == 0.0 {
+        if e[j] == 0.0 && !skip.get(j).copied().unwrap_or(false) {
             let vm = vc[j].iter().fold(0.0f64, |m, x| m.max(x.abs()));
             r.hard(vm > 0.0, &format!("eigenvector column {} of a real eigenvalue is zero", j));
             let mut worst = 0.0f64;
@@ -350,6 +356,85 @@ fn finding(out: &mut Out, id: &str, what: &str) {
         out.count(&format!("search:excluded-unlisted-finding:{}", id));
     }
     out.count(&format!("search:known-finding-reproduced:{}", id));
+}
+
+/// Predicate of the known finding hqr2-f32-repeated-eigenvalue-nonfinite (KNOWN_FINDINGS.txt): f32,
+/// general call, at least three computed real eigenvalues agree within 1e-4*max|d|, and the ONLY failing
+/// clause is "a returned value is not finite" or the eigenvector residual (or zero column) of columns
+/// belonging to that repeated eigenvalue.  Returns the flags of the columns of such a cluster.
+fn repeated_real_cluster(d: &[f64], e: &[f64]) -> Vec<bool> {
+    let n = d.len();
+    let real = |i: usize| e[i] == 0.0 && d[i].is_finite();
+    let dmax = (0..n).filter(|i| d[*i].is_finite()).fold(0.0f64, |m, i| m.max(d[i].abs()));
+    (0..n).map(|j| real(j) && (0..n).filter(|i| real(*i) && (d[*i] - d[j]).abs() <= 1e-4 * dmax).count() >= 3).collect()
+}
+#[allow(clippy::too_many_arguments)]
+fn is_f32_repeated_eigenvalue_finding(f32m: bool, t: (f64, f64, f64), b: &Mat, y: &Mat, r: &Evd) -> bool {
+    if !f32m {
+        return false;
+    }
+    let cluster = repeated_real_cluster(&r.d, &r.e);
+    if !cluster.iter().any(|c| *c) {
+        return false;
+    }
+    let finite = all_finite(&r.V) && all_finite(y) && r.d.iter().chain(r.e.iter()).all(|x| x.is_finite());
+    if !finite {
+        return true; // the first (hard) clause: nothing else can be evaluated on non-finite values
+    }
+    check_evd_gen_skip(t.0, t.1, t.2, b, y, &r.d, &r.e, &cluster).ok
+}
+
+/// Predicate of the known finding hqr2-f32-eigenvector-underflow (KNOWN_FINDINGS.txt): f32, general call,
+/// the ONLY failing clause is "eigenvector column j of a real eigenvalue is zero" (one or several j), AND
+/// evd(false) of the same entries in f64 succeeds, passes the f64 validator, and returns for every such j a
+/// non-zero column with max|v_j| < 1.2e-38 (below the f32 normal range).  Columns are matched by index j
+/// (with a check that it is the same eigenvalue); if the two runs order the eigenvalues differently, a
+/// real f64 eigenvalue within 1e-3*max|d| of d[j] with such a column is accepted instead.
+fn is_f32_eigenvector_underflow_finding(f32m: bool, a: &Mat, t: (f64, f64, f64), b: &Mat, y: &Mat, r: &Evd) -> bool {
+    if !f32m {
+        return false;
+    }
+    let n = a.len();
+    if !(square(n, &r.V) && r.d.len() == n && r.e.len() == n) {
+        return false;
+    }
+    if !(all_finite(&r.V) && all_finite(y) && r.d.iter().chain(r.e.iter()).all(|x| x.is_finite())) {
+        return false;
+    }
+    let zero_col: Vec<bool> = (0..n).map(|j| r.e[j] == 0.0 && (0..n).all(|i| r.V[i][j] == 0.0)).collect();
+    if !zero_col.iter().any(|z| *z) {
+        return false;
+    }
+    // nothing else fails
+    if !check_evd_gen_skip(t.0, t.1, t.2, b, y, &r.d, &r.e, &zero_col).ok {
+        return false;
+    }
+    // the same entries in f64
+    let r64 = match run_evd(a, false, false) {
+        Ok(x) => x,
+        Err(_) => return false,
+    };
+    if !(square(n, &r64.V) && r64.d.len() == n && r64.e.len() == n) {
+        return false;
+    }
+    let (t1, t2, tv) = tols_gen(n, false);
+    let (b64, y64, _s) = balanced_view(a, &r64.V, &r64.e, false);
+    if !check_evd_gen(t1, t2, tv, &b64, &y64, &r64.d, &r64.e).ok {
+        return false;
+    }
+    let dmax = r.d.iter().fold(0.0f64, |m, x| m.max(x.abs()));
+    let tiny = |k: usize| -> bool {
+        let vm = (0..n).fold(0.0f64, |m, i| m.max(r64.V[i][k].abs()));
+        r64.e[k] == 0.0 && vm > 0.0 && vm < 1.2e-38
+    };
+    let same = |k: usize, j: usize| (r64.d[k] - r.d[j]).abs() <= 1e-3 * dmax;
+    if std::env::var("VERIF_C02_DEBUG").is_ok() {
+        for j in (0..n).filter(|j| zero_col[*j]) {
+            let vm = (0..n).fold(0.0f64, |m, i| m.max(r64.V[i][j].abs()));
+            eprintln!("C02 debug: zero column {}: d32 = {:e}, f64 run: d = {:e}, e = {:e}, max|v| = {:e}, matched by index = {}", j, r.d[j], r64.d[j], r64.e[j], vm, same(j, j) && tiny(j));
+        }
+    }
+    (0..n).filter(|j| zero_col[*j]).all(|j| (same(j, j) && tiny(j)) || (!(same(j, j) && r64.e[j] == 0.0) && (0..n).any(|k| same(k, j) && tiny(k))))
 }
 
 /// Predicate of the known finding hqr-no-convergence-multiple-eigenvalue, decidable from the input alone:
@@ -535,6 +620,17 @@ fn oracle_gen(out: &mut Out, cal: &mut Calib, rows: &Mat, f32m: bool, family: &s
             cal.note(&v, if f32m { "f32" } else { "f64" });
             if r.e.iter().any(|x| *x != 0.0) {
                 out.count("search:gen:has-complex-pairs");
+            }
+            if !v.ok && std::env::var("VERIF_C02_DEBUG").is_ok() {
+                eprintln!("C02 debug: clause = {}; d = {:?}; e = {:?}; cluster = {:?}", v.clause, r.d, r.e, repeated_real_cluster(&r.d, &r.e));
+            }
+            if !v.ok && is_f32_repeated_eigenvalue_finding(f32m, (t1, t2, tv), &b, &y, &r) {
+                finding(out, "hqr2-f32-repeated-eigenvalue-nonfinite", "evd(false) in f32 returned non-finite values / a wrong eigenvector column for a real eigenvalue of multiplicity >= 3 (the back-substitution of hqr2 divides by the perturbation it substitutes for a zero pivot and the growth overflows in single precision)");
+                return None;
+            }
+            if !v.ok && is_f32_eigenvector_underflow_finding(f32m, &a, (t1, t2, tv), &b, &y, &r) {
+                finding(out, "hqr2-f32-eigenvector-underflow", "evd(false) in f32 returned an exactly zero column of V for a real eigenvalue: the un-normalised eigenvector (max|v| < 1.2e-38 in the f64 run of the same entries, where A*v = d*v holds) underflows in single precision");
+                return None;
             }
             if !v.ok {
                 out.fail("evd_gen", &v.clause, input);
@@ -1575,6 +1671,26 @@ fn main() {
             from_dense(&m)
         }) {
             corr_hess_case(&mut out, &b, "");
+        }
+    }
+    // known finding hqr2-f32-repeated-eigenvalue-nonfinite on its recorded input (corpus file, both tiers)
+    {
+        let path = "/verif/corpus/C02/known_hqr2_f32_repeated_eigenvalue_nonfinite.json";
+        let m = if std::path::Path::new(path).exists() { rows_from_json(&read_replay(path)["input"]["a"]) } else { vec![] };
+        if m.len() == 9 {
+            oracle_gen(&mut out, &mut cal, &m, true, "corpus", &Info { lambda: None, mult: 0, family: "hessenberg".into() });
+        } else {
+            out.count("search:corpus-file-missing:known_hqr2_f32_repeated_eigenvalue_nonfinite");
+        }
+    }
+    // known finding hqr2-f32-eigenvector-underflow on its recorded input (corpus file, both tiers)
+    {
+        let path = "/verif/corpus/C02/known_hqr2_f32_eigenvector_underflow.json";
+        let m = if std::path::Path::new(path).exists() { rows_from_json(&read_replay(path)["input"]["a"]) } else { vec![] };
+        if m.len() == 21 {
+            oracle_gen(&mut out, &mut cal, &m, true, "corpus", &Info { lambda: None, mult: 0, family: "hessenberg".into() });
+        } else {
+            out.count("search:corpus-file-missing:known_hqr2_f32_eigenvector_underflow");
         }
     }
     let ones28: Mat = vec![vec![1.0; 28]; 28];
